@@ -277,6 +277,89 @@ pub fn shapes(gi: &GInst, tier: Tier) -> Vec<Shape> {
 }
 
 /// the whole U-inst (context-dependent literal widths are generated by the checks that build a type context)
+/// U-scale: sizes, counts and values on both sides of every threshold a counter, a buffer or a cast could have.
+///  * every opcode with a literal string: string lengths around 2^6, 2^8, 2^10, 2^12, 2^16 and the longest that fits
+///    the 16-bit word count (ASCII and two-byte characters);
+///  * two carriers per variadic operand kind: repetition counts around 2^8, 2^10, 2^12 and the largest that fits;
+///  * ids (result type, result id, every id operand) at 2^16 - 1, 2^16, 2^24, 2^31 - 1, 2^31, 2^32 - 1.
+pub fn scale_shapes(tier: Tier) -> Vec<Shape> {
+    let g = golden();
+    let mut out = vec![];
+    let lens: Vec<usize> = match tier {
+        Tier::Quick => vec![63, 64, 255, 256, 257, 1023, 1024, 4096, 65535, 65536],
+        Tier::Thorough => vec![61, 62, 63, 64, 65, 127, 128, 129, 255, 256, 257, 511, 512, 1023, 1024, 1025, 4095, 4096, 4097, 16384, 65535, 65536, 65537, 131072],
+    };
+    for gi in &g.insts {
+        let vo = gi.value_operands();
+        // strings
+        if let Some(pos) = vo.iter().position(|(k, q)| k == "LiteralString" && *q != Quant::ZeroOrMore) {
+            let n_opt = vo[..=pos].iter().filter(|o| o.1 == Quant::ZeroOrOne).count();
+            let base = build(gi, n_opt, 0, None);
+            let fixed_words = crate::model::enc(&base).len();
+            let max_bytes = (0xFFFF - fixed_words) * 4; // the longest string that still fits (its NUL takes the spare word)
+            let mut ls = lens.clone();
+            ls.extend([max_bytes, max_bytes - 1, max_bytes - 4]);
+            for l in ls {
+                if l > max_bytes {
+                    continue;
+                }
+                let ascii: String = (0..l).map(|i| (b'a' + (i % 26) as u8) as char).collect();
+                out.push(Shape { id: format!("{}:scale:str{}", gi.name, l), inst: build(gi, n_opt, 0, Some((pos, 0, vec![Arg::Str(ascii)]))) });
+                if l % 2 == 0 && (l <= 4096 || l == max_bytes - max_bytes % 2) {
+                    let two: String = (0..l / 2).map(|_| 'é').collect();
+                    out.push(Shape { id: format!("{}:scale:str{}x2byte", gi.name, l), inst: build(gi, n_opt, 0, Some((pos, 0, vec![Arg::Str(two)]))) });
+                }
+            }
+        }
+    }
+    // variadic operands: two carriers per kind (the first two opcodes in table order that have it)
+    let mut per_kind: std::collections::BTreeMap<String, usize> = std::collections::BTreeMap::new();
+    let counts: Vec<usize> = match tier {
+        Tier::Quick => vec![255, 256, 257, 1024, 4096],
+        Tier::Thorough => vec![127, 128, 254, 255, 256, 257, 511, 512, 1023, 1024, 1025, 4095, 4096, 4097, 16384, 32768],
+    };
+    for gi in &g.insts {
+        let vo = gi.value_operands();
+        let Some((k, _)) = vo.iter().find(|o| o.1 == Quant::ZeroOrMore) else { continue };
+        let c = per_kind.entry(k.clone()).or_insert(0);
+        if *c >= 2 && !matches!(gi.name.as_str(), "Switch" | "Phi" | "TypeStruct" | "EntryPoint" | "AccessChain" | "ExtInst" | "FunctionCall" | "CompositeConstruct" | "ConstantComposite" | "VectorShuffle" | "GroupDecorate" | "GroupMemberDecorate" | "TypeFunction") {
+            continue;
+        }
+        *c += 1;
+        let n_opt = n_optional(gi);
+        let zero = crate::model::enc(&build(gi, n_opt, 0, None)).len();
+        let one = crate::model::enc(&build(gi, n_opt, 1, None)).len();
+        let per = (one - zero).max(1);
+        let max_n = (0xFFFF - zero) / per;
+        let mut cs = counts.clone();
+        cs.extend([max_n, max_n - 1]);
+        for n in cs {
+            if n > max_n {
+                continue;
+            }
+            out.push(Shape { id: format!("{}:scale:var{}", gi.name, n), inst: build(gi, n_opt, n, None) });
+        }
+    }
+    // ids at the far end of the range
+    for name in ["IAdd", "TypeStruct", "Decorate", "Phi", "Switch", "ExtInst", "TypeInt", "Name", "EntryPoint", "ControlBarrier", "AtomicIAdd"] {
+        let gi = g.inst(name);
+        for v in [0xFFFFu32, 0x1_0000, 0x00FF_FFFF, 0x0100_0000, 0x7FFF_FFFF, 0x8000_0000, 0xFFFF_FFFE, 0xFFFF_FFFF] {
+            let mut i = fullest(gi);
+            i.rtype = i.rtype.map(|_| v);
+            i.rid = i.rid.map(|_| v ^ 1);
+            for (k, a) in i.args.iter_mut().enumerate() {
+                let w = v.wrapping_sub(k as u32 % 2);
+                match a {
+                    Arg::IdRef(x) | Arg::IdScope(x) | Arg::IdMemSem(x) => *x = w,
+                    _ => {}
+                }
+            }
+            out.push(Shape { id: format!("{}:scale:id{:#x}", name, v), inst: i });
+        }
+    }
+    out
+}
+
 pub fn all_shapes(tier: Tier) -> Vec<Shape> {
     let g = golden();
     let mut out = vec![];
